@@ -287,27 +287,28 @@ def tripleOK (timex : Str) (start stop : Option Str) : Bool :=
         let endsOK := (match start with | some s => fmt pa = some s | none => true) &&
                       (match stop with | some s => fmt pb = some s | none => true)
         let durOK :=
-          match parseDuration p, diffSeconds pa pb with
-          | some ((n, den), u), some secs =>
-            (match u with
-             | .MON =>
-               (match pa.1, pb.1 with
-                | some d1, some d2 => den = 1 ∧ ((d2.y * 12 + d2.m : Nat) : Int) - (d1.y * 12 + d1.m : Nat) = n ∧ d1.d = d2.d
-                | _, _ => false)
-             | .Y =>
-               (match pa.1, pb.1 with
-                | some d1, some d2 => den = 1 ∧ (d2.y : Int) - d1.y = n ∧ d1.m = d2.m ∧ d1.d = d2.d
-                | _, _ => false)
-             | u => secs * den = (n * unitSeconds u : Nat))
-          | none, some secs =>
-            -- composite `PT1H30M`: compared through seconds; anything else (`PXD`, `P1Y2M`) is not definite: nothing demanded
-            (match p with
-             | 80 :: 84 :: rest =>
-               (match ptSeconds (rest.length + 1) rest with
-                | some (n, d) => rest ≠ [] → secs * d = (n : Int)
-                | none => true)
-             | _ => true)
-          | _, none => false
+          match p with
+          | 80 :: 84 :: rest =>
+            -- `PT…`: one or several H/M/S components (amounts may be decimals), compared through seconds
+            (match ptSeconds (rest.length + 4) rest, diffSeconds pa pb with
+             | some (n, d), some secs => rest ≠ [] ∧ secs * d = (n : Int)
+             | some _, none => false
+             | none, _ => true)          -- not a definite duration (`PTXH`): nothing demanded
+          | _ =>
+            match parseDuration p, diffSeconds pa pb with
+            | some ((n, den), u), some secs =>
+              (match u with
+               | .MON =>
+                 (match pa.1, pb.1 with
+                  | some d1, some d2 => den = 1 ∧ ((d2.y * 12 + d2.m : Nat) : Int) - (d1.y * 12 + d1.m : Nat) = n ∧ d1.d = d2.d
+                  | _, _ => false)
+               | .Y =>
+                 (match pa.1, pb.1 with
+                  | some d1, some d2 => den = 1 ∧ (d2.y : Int) - d1.y = n ∧ d1.m = d2.m ∧ d1.d = d2.d
+                  | _, _ => false)
+               | u => secs * den = (n * unitSeconds u : Nat))
+            | none, _ => true            -- `PXD`, `P1Y2M`: not definite, nothing demanded
+            | _, none => false
         endsOK && durOK
       | _, _ => true   -- not definite: nothing demanded
     | _ => true
